@@ -114,9 +114,9 @@ func (fc *FnCtx) wf(t types.Type, term string, depth int) string {
 		if arr, ok := t.Underlying().(*types.Array); ok {
 			return and("(not (b_nil "+term+"))", eq("(str.len (b_s "+term+"))", strconv.FormatInt(arr.Len(), 10)))
 		}
-		return "(and (=> (b_nil " + term + ") (= (b_s " + term + ") \"\")) (< (str.len (b_s " + term + ")) 9223372036854775808))"
-	case "String":
-		return "(< (str.len " + term + ") 9223372036854775808)"
+		// (no explicit length bound on strings: length facts make the string solvers case-split heavily;
+		// omitting the bound only enlarges the input space)
+		return "(=> (b_nil " + term + ") (= (b_s " + term + ") \"\"))"
 	case "Ctx":
 		return "true"
 	case "Iface":
@@ -868,7 +868,13 @@ func (fr *Frame) execInstr(b *ssa.BasicBlock, in ssa.Instruction, st *State, rea
 			}
 			return
 		}
-		nv := fr.define(x, "(mkI "+fc.B.Tag(x.X.Type())+" "+fc.B.Box(x.X.Type(), v.T)+")")
+		var boxed string
+		if onlyVarargUse(x) {
+			boxed = fc.B.BoxQuiet(x.X.Type(), v.T) // formatting argument: never unboxed, no inverse axiom needed
+		} else {
+			boxed = fc.B.Box(x.X.Type(), v.T)
+		}
+		nv := fr.define(x, "(mkI "+fc.B.Tag(x.X.Type())+" "+boxed+")")
 		nv.Fn = &FnVal{Special: "dyn", Data: []Val{v}}
 		fr.vals[x] = nv
 	case *ssa.TypeAssert:
